@@ -7,7 +7,7 @@ and the representation invariant dinv(state) ties current_byte / next_bit / the
 file position to that view (derived from the code, not from the docs).
 """
 from pyvc.api import *
-from pyvc import models  # noqa: F401  (trusted library models)
+from contracts.c20_common import *
 from vc2_conformance.decoder.exceptions import UnexpectedEndOfStream
 
 IO = "vc2_conformance.decoder.io."
@@ -24,13 +24,7 @@ fields(
 STATE = "dict:State"
 
 
-# ---- ghost views ---------------------------------------------------------------
-
-
-@inline
-def tbit(c, p):
-    """Bit p of the tape whose bytes are c (MSB first)."""
-    return bitof(c[p // 8], 7 - p % 8)
+# ---- ghost views of the decoder state ------------------------------------------
 
 
 @inline
@@ -61,27 +55,6 @@ def dinv(state):
         and implies(cb is None, fpos(f) == flen(f) and state["next_bit"] == 7)
         and implies(has(state, "_recorded_bytes"), state["_recorded_bytes"] != f)
     )
-
-
-@specfun
-def bitsval(c: "array", p, n):
-    """Value of the n tape bits starting at p, MSB first."""
-    return 0 if n <= 0 else 2 * bitsval(c, p, n - 1) + tbit(c, p + n - 1)
-
-
-# unsigned interleaved exp-Golomb decoding as a function of the tape:
-#   ue_val(c, p, acc): the value read_uint returns when started at p with accumulator acc
-#   ue_end(c, p):      the tape position just after the code that starts at p
-
-
-@specfun
-def ue_val(c: "array", p, acc):
-    return acc - 1 if tbit(c, p) == 1 else ue_val(c, p + 2, 2 * acc + tbit(c, p + 1))
-
-
-@specfun
-def ue_end(c: "array", p):
-    return p + 1 if tbit(c, p) == 1 else ue_end(c, p + 2)
 
 
 FRAME_IO = ['state["next_bit"]', 'state["current_byte"]', 'state["_file"].fpos',
@@ -128,7 +101,8 @@ class _read_bit:
         "old(dpos(state)) < nbits_total(state)",
         'has(state, "_recorded_bytes") == old(has(state, "_recorded_bytes"))',
     ]
-    ghost = {"entry": ['use("bitof_def", state["current_byte"], state["next_bit"]) if state["current_byte"] is not None else None']}
+    ghost = {"entry": ['use("bitof_def", state["current_byte"], state["next_bit"]) if state["current_byte"] is not None else None',
+                       "unfold(tbit, tape(state), dpos(state))"]}
 
 
 COMMON_POST = [
@@ -253,29 +227,6 @@ class _read_sint:
         "dpos(state) == ue_end(old(tape(state)), old(dpos(state))) + 1 and "
         "result == (1 - 2 * tbit(old(tape(state)), ue_end(old(tape(state)), old(dpos(state))))) * ue_val(old(tape(state)), old(dpos(state)), 1))",
     ]
-
-
-# ---- bounded blocks: the virtual tape reads 1 at and beyond the block limit L, where the position freezes
-
-
-@inline
-def imin(a, b):
-    return a if a < b else b
-
-
-@inline
-def vbit(c, p, L):
-    return tbit(c, p) if p < L else 1
-
-
-@specfun
-def ueb_val(c: "array", p, L, acc):
-    return acc - 1 if vbit(c, p, L) == 1 else ueb_val(c, imin(p + 2, L), L, 2 * acc + vbit(c, imin(p + 1, L), L))
-
-
-@specfun
-def ueb_end(c: "array", p, L):
-    return imin(p + 1, L) if vbit(c, p, L) == 1 else ueb_end(c, imin(p + 2, L), L)
 
 
 @inline
